@@ -89,7 +89,7 @@ def gen_cases(ctx):
         cases = num + sch + sch2
     # 3. concrete classes
     kinds = ["exact", "tebd", "tdvp1", "tdvp2", "tdvp2site", "bug", "fixedbug"]
-    reps = ctx.n(6, 30)
+    reps = ctx.n(16, 60)
     for r in range(reps):
         for kind in kinds:
             cases.append({"kind": "class", "algo": kind, "seed": rng.randrange(10 ** 9),
